@@ -159,12 +159,17 @@ def run_cross(chk: Check, owner: str):
         return
     fails = validate(chk, recs)
     # the binding is demonstrated: a row whose market value is added without conversion must be rejected
-    bad = json.loads(json.dumps(next(r for r in recs if any(m[1] != r["quote"] and m[2][0] != 0 for m in r["markets"]))))
-    m = next(m for m in bad["markets"] if m[1] != bad["quote"] and m[2][0] != 0)
-    m[3] = qj(1) if m[3] != qj(1) else qj(2)
-    bad["id"] = 10 ** 6
-    if not validate(chk, [bad]):
-        raise RuntimeError("vacuous: an account row with an unconverted market value was accepted by Trace_Account")
+    # (an ACCEPTED row is corrupted: a row the specification already rejects demonstrates nothing)
+    good = next((r for r in recs if r["id"] not in fails and any(m[1] != r["quote"] and m[2][0] != 0 for m in r["markets"])), None)
+    if good is not None:
+        bad = json.loads(json.dumps(good))
+        m = next(m for m in bad["markets"] if m[1] != bad["quote"] and m[2][0] != 0)
+        m[3] = qj(1) if m[3] != qj(1) else qj(2)
+        bad["id"] = 10 ** 6
+        if not validate(chk, [bad]):
+            raise RuntimeError("vacuous: an account row with an unconverted market value was accepted by Trace_Account")
+    elif not fails:
+        raise RuntimeError("vacuous: no account row with a market quoted in another token than the account")
     chk.count("C01/account/composition_of_markets", len(recs))
     chk.evaluations += len(recs)
     chk.extra["composite_account"] = {"runs": len(cases), "rows": len(recs), "accepted_operations": okops,
